@@ -258,6 +258,23 @@ async def run_lookups(sc: dict) -> list[tuple[str, str]]:
             for how, got in seen.items():
                 if got is not obj:
                     fails.append(("stable", f"inside a component's {sc['phase']}(): {how} of (PA, {name!r}) gave {getattr(got, 'label', got)!r}, other lookups give {obj.label!r}"))
+        # a plain Context() created here, after something was published during this very phase: the pair is taken in it too - every
+        # lookup gives the same object, and adding it again is refused and changes nothing
+        late = PA("late")
+        ac.add_resource(late, "late")
+        async with Context() as child:
+            for name, obj in list(objs.items()) + [("late", late)]:
+                for how, got in (("nowait", child.get_resource_nowait(PA, name, optional=True)), ("async", await child.get_resource(PA, name, optional=True)),
+                                 ("get_resources", child.get_resources(PA).get(name))):
+                    if got is not obj:
+                        fails.append(("stable", f"a context created inside a component's {sc['phase']}(): {how} of (PA, {name!r}) gave {getattr(got, 'label', got)!r}, the surrounding context gives {obj.label!r}"))
+            try:
+                child.add_resource(PA("dup"), "late")
+                fails.append(("conflict", f"a context created inside a component's {sc['phase']}() accepted a second resource for the taken pair (PA, 'late')"))
+            except ac.ResourceConflict:
+                pass
+            if child.get_resource_nowait(PA, "late", optional=True) is not late:
+                fails.append(("stable", "after the refused add the pair (PA, 'late') resolves to another object"))
         for how, got in (("shortcut async optional", await ac.get_resource(PB, "backup", optional=True)),
                          ("shortcut nowait optional", ac.get_resource_nowait(PB, "backup", optional=True))):
             if got is not None:
